@@ -10,11 +10,11 @@ import (
 )
 
 type callTarget struct {
-	fn      *ssa.Function // static or resolved
-	closure *Closure
-	builtin string
+	fn       *ssa.Function // static or resolved
+	closure  *Closure
+	builtin  string
 	hostRecv *HostV
-	method  *types.Func // invoke-mode method
+	method   *types.Func // invoke-mode method
 }
 
 func (in *Interp) call(fr *frame, c *ssa.CallCommon, site ssa.Value) Value {
@@ -238,7 +238,6 @@ func (in *Interp) callBuiltin(fr *frame, name string, args []Value, c *ssa.CallC
 	in.fail("unsupported builtin %s on %T", name, args[0])
 	return nil
 }
-
 
 func (in *Interp) currentPanic() *goPanic {
 	for i := len(in.panicFrames) - 1; i >= 0; i-- {
